@@ -185,7 +185,9 @@ def run(project, chk):
     _eff = _Eff(project)
     pentry = f"{PAR}.parse_color_to_rgb"
     pclosure = _eff.reach(pentry) | {pentry}
-    dirty = [(q, d, n) for q in sorted(pclosure) if q in _eff.sum for (d, n) in _eff.sum[q].module_writes]
+    from checks.C15 import transparent_memo_tables as _tmt
+    _transparent = _tmt(project, _eff)      # a table keyed injectively by everything the cached value is computed from (background included) has no memory
+    dirty = [(q, d, n) for q in sorted(pclosure) if q in _eff.sum for (d, n) in _eff.sum[q].module_writes if d not in _transparent]
     for q, d, n in dirty:
         f2 = project.funcs[q]
         chk.fail("W6", f2.short, norm_text(n), project.loc(f2.module, n), f"the parser's call closure writes module-level state {d}: the composite of a translucent colour can come from an earlier call with another background")
